@@ -83,7 +83,7 @@ MANIFEST = {
                    "acquire/read/write/release steps, arbitrary scheduler and clock readings within one refill second): for ANY number of "
                    "threads, ANY bursts and ANY schedule, when all threads are done exactly min(n, tokens) responses were sent and the rest "
                    "limited (inductive invariant: mutual exclusion, reads current, one token per sent response); progress (no deadlock, no "
-                   "panic); the lockless variant is refuted. Real code: ~400 (quick) stress runs with 2-16 OS threads must give the theorem's count."),
+                   "panic); lifted to the whole table with one lock per bucket and threads of many streams by a step-for-step projection; the lockless variant is refuted. Real code: ~400 (quick) stress runs with 2-16 OS threads must give the theorem's count."),
     "level_note": ("Proof of the model; partial w.r.t. the runtime: correctness of std::sync::Mutex, memory ordering and OS scheduling are "
                    "assumed / sampled by the stress harness, not proved."),
     "technique": "machine-checked proof in Coq (interleaving semantics + inductive invariant, all schedules) + stress correspondence on the real code",
